@@ -251,19 +251,26 @@ class BindContextRespondent(BindContextBase):
             )
         self.set_state(RespIsWaitingForOffer)  # self._is_respondent = True
 
-        # Step R1: Respondent expects an Offer
-        tender = await self._wait_for_offer()
+        try:
+            # Step R1: Respondent expects an Offer
+            tender = await self._wait_for_offer()
 
-        # Step R2: Respondent expects a Confirm after sending an Accept (accepts Offer)
-        accept = await self._accept_offer(tender, accept_codes, idx=idx)
-        affirm = await self._wait_for_confirm(accept)
+            # Step R2: Respondent expects a Confirm after sending an Accept
+            accept = await self._accept_offer(tender, accept_codes, idx=idx)
+            affirm = await self._wait_for_confirm(accept)
 
-        # Step R3: Respondent expects an Addenda (optional)
-        if require_ratify:  # TODO: not recvd as sent to 63:262142
-            self.set_state(RespIsWaitingForAddenda)  # HACK: easiest way
-            ratify = await self._wait_for_addenda(accept)  # may: exc.BindingFlowFailed:
-        else:
-            ratify = None
+            # Step R3: Respondent expects an Addenda (optional)
+            if require_ratify:  # TODO: not recvd as sent to 63:262142
+                self.set_state(RespIsWaitingForAddenda)  # HACK: easiest way
+                ratify = await self._wait_for_addenda(accept)  # may: BindingFlowFailed
+            else:
+                ratify = None
+
+        except exc.BindingError:
+            raise
+        except exc.RamsesException as err:  # e.g. a send failed: is no longer binding
+            self.set_state(DevHasFailedBinding)
+            raise exc.BindingFlowFailed(f"{self}: binding failed: {err}") from err
 
         # self._set_as_bound(tender, accept, affirm, ratify)
         return tender._pkt, accept, affirm._pkt, (ratify._pkt if ratify else None)
@@ -328,19 +335,26 @@ class BindContextSupplicant(BindContextBase):
 
         oem_code = ratify_cmd.payload[14:16] if ratify_cmd else None
 
-        # Step S1: Supplicant sends an Offer (makes Offer) and expects an Accept
-        tender = await self._make_offer(offer_codes, oem_code=oem_code)
-        accept = await self._wait_for_accept(tender)
+        try:
+            # Step S1: Supplicant sends an Offer (makes Offer) and expects an Accept
+            tender = await self._make_offer(offer_codes, oem_code=oem_code)
+            accept = await self._wait_for_accept(tender)
 
-        # Step S2: Supplicant sends a Confirm (confirms Accept)
-        affirm = await self._confirm_accept(accept, confirm_code=confirm_code)
+            # Step S2: Supplicant sends a Confirm (confirms Accept)
+            affirm = await self._confirm_accept(accept, confirm_code=confirm_code)
 
-        # Step S3: Supplicant sends an Addenda (optional)
-        if oem_code:
-            self.set_state(SuppIsReadyToSendAddenda)  # HACK: easiest way
-            ratify = await self._cast_addenda(accept, ratify_cmd)  # type: ignore[arg-type]
-        else:
-            ratify = None
+            # Step S3: Supplicant sends an Addenda (optional)
+            if oem_code:
+                self.set_state(SuppIsReadyToSendAddenda)  # HACK: easiest way
+                ratify = await self._cast_addenda(accept, ratify_cmd)  # type: ignore[arg-type]
+            else:
+                ratify = None
+
+        except exc.BindingError:
+            raise
+        except exc.RamsesException as err:  # e.g. a send failed: is no longer binding
+            self.set_state(DevHasFailedBinding)
+            raise exc.BindingFlowFailed(f"{self}: binding failed: {err}") from err
 
         # self._set_as_bound(tender, accept, affirm, ratify)
         return tender, accept._pkt, affirm, ratify
